@@ -473,7 +473,7 @@ const ANSWER_ALLOW: [&[&str]; 3] = [&[], &["6.6.8.1/32"], &["12.0.0.0/8", "11.0.
 /// the configuration every other family runs with
 const DEFAULT_FILTERS: [usize; 4] = [1, 0, 1, 0];
 /// (ns_cache_size, response_cache_size): what every other family uses, then the boundary values
-const CACHE_SIZES: [(usize, u64); 4] = [(64, 4096), (0, 0), (1, 1), (2, 2)];
+const CACHE_SIZES: [(usize, u64); 5] = [(64, 4096), (0, 0), (1, 1), (2, 2), (7, 300)];
 
 fn nets(v: &[&str]) -> Vec<ipnet::IpNet> {
     v.iter().map(|s| s.parse().unwrap()).collect()
@@ -659,7 +659,15 @@ impl Run {
     }
 }
 
+thread_local! {
+    /// construction path of the next `execute` on this thread (see CaseDesc::ctor)
+    static CTOR: std::cell::Cell<u8> = const { std::cell::Cell::new(0) };
+    /// (EDNS payload sizes seen, any upper-case request name) of the last `execute`
+    static REQ_OBS: std::cell::RefCell<(Vec<u16>, bool)> = const { std::cell::RefCell::new((vec![], false)) };
+}
+
 fn execute(inet: Arc<Internet>, limits: (u8, u8), case_rand: bool, filters: [usize; 4], caches: usize, queries: &[(Name, RecordType)]) -> Run {
+    let ctor = CTOR.with(|c| c.get());
     vsim::install_hook_clock_tokio();
     let rt = vsim::rt();
     let run = rt.block_on(async {
@@ -676,7 +684,43 @@ fn execute(inet: Arc<Internet>, limits: (u8, u8), case_rand: bool, filters: [usi
             case_randomization: case_rand,
             ..RecursorOptions::default()
         };
-        let rec = Recursor::with_options(&[IpAddr::V4(inet.servers[0].ip)], opts, net.clone()).expect("recursor");
+        let mut opts = opts;
+        if ctor >= 10 {
+            opts.edns_payload_len = 1400;
+            opts.avoid_local_udp_ports = [5353u16].into_iter().collect();
+        }
+        let root = IpAddr::V4(inet.servers[0].ip);
+        let rec = match ctor % 10 {
+            0 => Recursor::with_options(&[root], opts, net.clone()).expect("recursor"),
+            1 => Recursor::new(&[root], hickory_resolver::recursor::DnssecPolicy::default(), None, opts, net.clone()).expect("recursor"),
+            _ => {
+                // the production path: a roots file + a deserialised configuration
+                let dir = std::env::temp_dir().join(format!("verif-c19-{}-{:?}", std::process::id(), std::thread::current().id()));
+                let _ = std::fs::create_dir_all(&dir);
+                let roots = dir.join("roots.zone");
+                std::fs::write(&roots, format!(". 3600 IN NS a-root.\na-root. 3600 IN A {root}\n")).expect("roots file");
+                let strs = |v: &Vec<ipnet::IpNet>| v.iter().map(|n| n.to_string()).collect::<Vec<_>>();
+                let cfg = json!({
+                    "roots": "roots.zone",
+                    "ns_cache_size": opts.ns_cache_size,
+                    "response_cache_size": opts.response_cache_size,
+                    "recursion_limit": opts.recursion_limit,
+                    "ns_recursion_limit": opts.ns_recursion_limit,
+                    "allow_answers": strs(&opts.allow_answers),
+                    "deny_answers": strs(&opts.deny_answers),
+                    "allow_server": strs(&opts.allow_server),
+                    "deny_server": strs(&opts.deny_server),
+                    "avoid_local_udp_ports": opts.avoid_local_udp_ports.iter().copied().collect::<Vec<u16>>(),
+                    "case_randomization": opts.case_randomization,
+                    "edns_payload_len": opts.edns_payload_len,
+                });
+                let cfg: hickory_resolver::recursor::RecursiveConfig = serde_json::from_value(cfg).expect("RecursiveConfig");
+                let r = Recursor::from_config(cfg, Some(&dir), net.clone()).expect("recursor from config");
+                let _ = std::fs::remove_dir_all(&dir);
+                r
+            }
+        };
+
         let mut steps = vec![];
         for (name, rtype) in queries {
             let before = net.exchanges();
@@ -698,6 +742,10 @@ fn execute(inet: Arc<Internet>, limits: (u8, u8), case_rand: bool, filters: [usi
             if hung {
                 break;
             }
+        }
+        {
+            let st = net.state.lock().unwrap();
+            REQ_OBS.with(|o| *o.borrow_mut() = (st.payloads.iter().copied().collect(), st.saw_upper || st.letters < 40));
         }
         Run { steps }
     });
@@ -916,6 +964,10 @@ struct CaseDesc {
     filters: [usize; 4],
     /// index into CACHE_SIZES (ns_cache_size, response_cache_size)
     caches: usize,
+    /// construction path: 0 `Recursor::with_options`, 1 `Recursor::new`, 2 `Recursor::from_config`
+    /// (a deserialised RecursiveConfig + a roots file), 10-12 the same with the construction
+    /// family's extra knobs (edns_payload_len 1400, avoid_local_udp_ports {5353})
+    ctor: u8,
 }
 
 impl CaseDesc {
@@ -933,6 +985,7 @@ impl CaseDesc {
             "filters": self.filters,
             "cache_sizes": [CACHE_SIZES[self.caches].0, CACHE_SIZES[self.caches].1 as usize],
             "caches": self.caches,
+            "ctor": self.ctor,
             "filters_text": {"deny_server": SERVER_DENY[self.filters[0]], "allow_server": SERVER_ALLOW[self.filters[1]], "deny_answers": ANSWER_DENY[self.filters[2]], "allow_answers": ANSWER_ALLOW[self.filters[3]]},
         })
     }
@@ -947,6 +1000,7 @@ impl CaseDesc {
             warm: v["warm"].as_bool().unwrap_or(false),
             mode: v["mode"].as_u64().unwrap_or(0) as usize,
             caches: v["caches"].as_u64().unwrap_or(0) as usize,
+            ctor: v["ctor"].as_u64().unwrap_or(0) as u8,
             filters: v["filters"].as_array().map(|a| [a[0].as_u64().unwrap() as usize, a[1].as_u64().unwrap() as usize, a[2].as_u64().unwrap() as usize, a[3].as_u64().unwrap() as usize]).unwrap_or(DEFAULT_FILTERS),
         }
     }
@@ -1010,7 +1064,9 @@ fn run_and_judge(desc: &CaseDesc, honest: Option<&Run>, l: &mut Local) -> Run {
     // supervising parent (vcore::supervise) reports the marked case as a termination violation
     vcore::mark_case(l.worker, || desc.to_json().to_string());
     let inet = Arc::new(desc.internet());
+    CTOR.with(|c| c.set(desc.ctor));
     let run = execute_caught(inet.clone(), desc.limits, desc.case_rand, desc.filters, desc.caches, &desc.parsed_queries());
+    CTOR.with(|c| c.set(0));
     let wit = || {
         let mut j = desc.to_json();
         j["observed"] = run.to_json();
@@ -1394,6 +1450,7 @@ fn main() {
          CNAME->victim + victim A, in-bailiwick A at a denied answer address, in-bailiwick NS + glue at a denied server address, sibling A, victim NS + victim glue, NS for the hostile zone's own names naming a victim-zone host + forged glue for it, victim CNAME, victim-zone SOA; plus the systematic kinds record type {A, NS+glue, SOA} x OWNER {inside the hostile zone, hostile apex, parent apex, grandparent apex (= every strict ancestor up to the root), sibling, victim apex, unrelated TLD}) x response mode {append; on the plain graph (thorough: all single-server graphs) also: genuine records dropped with NOERROR / with NXDOMAIN, AA bit flipped, genuine records re-owned to the victim} x section {answer, authority, additional} added to EVERY response \
          x main query (cold, and - when the hostile zone is the one holding the queried name - also after a warm-up query for another name of that zone, i.e. with every ancestor's pool already in the name-server cache), followed on the same recursor by 3-4 follow-up queries for names outside the hostile subtree, by a SECOND-STEP query for everything the first resolution touched internally (every (name, type in A/AAAA/NS) it asked upstream and the address of every NS host name of the zones it asked: glueless NS names, zone cuts, alias targets), and by the first query again (warm answer must be a subset of the cold one); thorough adds all unordered pairs of injections on the plain graph and on every graph that differs from it in at most one zone's NS style; \
          (F) every filter configuration the builder accepts out of deny_server {none, 6.6.7.0/24, 0.0.0.0/0} x allow_server {none, 6.6.7.1/32, 11.0.0.0/8} x deny_answers {none, 6.6.8.0/24, 0.0.0.0/0} x allow_answers {none, 6.6.8.1/32, 12/8+11/8} (quick: one filter at its default; thorough: the full product, 49) x hostile zone {ROOT, t., l.t.} x filter-relevant injections x 5 queries (each asked twice), judged against the documented deny/allow table; \
+         (G) construction paths: Recursor::with_options / Recursor::new / Recursor::from_config (a deserialised RecursiveConfig + a roots file written at run time) with EVERY knob at a non-default value and same-typed neighbours at different values (recursion_limit 6 / ns_recursion_limit 10, deny_server 6.6.7.0/24 + allow_server 6.6.7.1/32 vs deny_answers 6.6.8.0/24 + allow_answers 6.6.8.1/32, ns_cache_size 7 / response_cache_size 300, case_randomization, edns_payload_len 1400, avoid_local_udp_ports) x 29 probes (filter injections at a hostile l.t., NS chains, CNAME chains, delegation depth), judged by the usual oracle for those values and differentially against the with_options-built object, plus per-knob effect clauses (advertised payload = edns_payload_len, mixed-case query names, an NS chain is bounded by ns_recursion_limit and not by recursion_limit); the two cache sizes have different types (usize / u64) and eviction is not observable deterministically from upstream traffic (each cache masks the other), so they are only compared differentially; there is no RecursorBuilder, and the DNSSEC policy / trust-anchor knobs are outside C19's non-validating statement; \
          (C) lame kinds {REFUSED, upward referral, self referral, empty NOERROR, timeout} x zone x {1 server, 2 servers both lame, 2 servers first lame}; \
          (D) CNAME chains 1..70 (in-zone / cross-zone, server chases in-zone or not), CNAME loops 1..3, NS-for-NS chains 1..30, glueless cycles 1..8 (1 NS name) / 1..6 (2 NS names), delegation depth 1..40/100/120, NS-for-NS chains also of 126-128 and 252-258 zones, each x (recursion_limit, ns_recursion_limit) in {0,1,2,4,8,24,254,255} equal and crossed (thorough: more), and x (ns_cache_size, response_cache_size) in {(0,0),(1,1),(2,2)}; exact bound on a single delegation path: at most ns_recursion_limit zone-cut lookups; a panic in the recursor is `panic:<loc>`; \
          (E) stub CachingClient over a hostile/odd upstream: shapes {CNAME chain, SRV-target chain, plus foreign CNAME/address records, reverse record order, alias owner also has an address, duplicated CNAMEs, chain leaving the queried domain at every hop} x chains 1..20 / loops 1..3 x 1-2 hops per response x preserve_intermediates on/off x TTL {300, 0}, the name looked up twice on the same client. \
@@ -1413,13 +1470,13 @@ fn main() {
     for s in &specs {
         for lim in limits_all {
             for q in &queries {
-                honest_descs.push(CaseDesc { spec: s.clone(), limits: lim, hostile: None, inj: vec![], queries: vec![(q.0.to_string(), q.1.to_string())], case_rand: false, warm: false, mode: 0, filters: DEFAULT_FILTERS, caches: 0 });
+                honest_descs.push(CaseDesc { spec: s.clone(), limits: lim, hostile: None, inj: vec![], queries: vec![(q.0.to_string(), q.1.to_string())], case_rand: false, warm: false, mode: 0, filters: DEFAULT_FILTERS, caches: 0, ctor: 0 });
             }
         }
     }
     for s in lame_specs() {
         for q in &queries {
-            honest_descs.push(CaseDesc { spec: s.clone(), limits: (8, 8), hostile: None, inj: vec![], queries: vec![(q.0.to_string(), q.1.to_string())], case_rand: false, warm: false, mode: 0, filters: DEFAULT_FILTERS, caches: 0 });
+            honest_descs.push(CaseDesc { spec: s.clone(), limits: (8, 8), hostile: None, inj: vec![], queries: vec![(q.0.to_string(), q.1.to_string())], case_rand: false, warm: false, mode: 0, filters: DEFAULT_FILTERS, caches: 0, ctor: 0 });
         }
     }
     ctx.set("graphs", json!(specs.len()));
@@ -1446,7 +1503,7 @@ fn main() {
 
     // the plain graph must resolve: otherwise everything below is vacuous
     {
-        let d = CaseDesc { spec: Spec::base(), limits: (8, 8), hostile: None, inj: vec![], queries: vec![("www.l.t.".into(), "A".into()), ("alias.l.t.".into(), "A".into())], case_rand: false, warm: false, mode: 0, filters: DEFAULT_FILTERS, caches: 0 };
+        let d = CaseDesc { spec: Spec::base(), limits: (8, 8), hostile: None, inj: vec![], queries: vec![("www.l.t.".into(), "A".into()), ("alias.l.t.".into(), "A".into())], case_rand: false, warm: false, mode: 0, filters: DEFAULT_FILTERS, caches: 0, ctor: 0 };
         let run = execute_caught(Arc::new(d.internet()), d.limits, d.case_rand, d.filters, d.caches, &d.parsed_queries());
         let ok = run.steps.iter().all(|s| matches!(&s.outcome, Outcome::Ok { answers, .. } if answers.iter().any(|r| r.record_type() == RecordType::A)));
         if !ok {
@@ -1460,7 +1517,7 @@ fn main() {
         let mut cases = vec![];
         for s in specs.iter().filter(|s| s.style.iter().sum::<usize>() <= 1) {
             for q in &queries {
-                cases.push(CaseDesc { spec: s.clone(), limits: (8, 8), hostile: None, inj: vec![], queries: vec![(q.0.to_string(), q.1.to_string())], case_rand: true, warm: false, mode: 0, filters: DEFAULT_FILTERS, caches: 0 });
+                cases.push(CaseDesc { spec: s.clone(), limits: (8, 8), hostile: None, inj: vec![], queries: vec![(q.0.to_string(), q.1.to_string())], case_rand: true, warm: false, mode: 0, filters: DEFAULT_FILTERS, caches: 0, ctor: 0 });
             }
         }
         ctx.set("case_randomization_cases", json!(cases.len()));
@@ -1495,7 +1552,7 @@ fn main() {
         }
         l.eval();
         let q = &queries[qi];
-        let d = CaseDesc { spec: s.clone(), limits: inj_limits, hostile: None, inj: vec![], queries: vec![(q.0.to_string(), q.1.to_string())], case_rand: false, warm: false, mode: 0, filters: DEFAULT_FILTERS, caches: 0 };
+        let d = CaseDesc { spec: s.clone(), limits: inj_limits, hostile: None, inj: vec![], queries: vec![(q.0.to_string(), q.1.to_string())], case_rand: false, warm: false, mode: 0, filters: DEFAULT_FILTERS, caches: 0, ctor: 0 };
         let inet = d.internet();
         let run = execute_caught(Arc::new(d.internet()), d.limits, d.case_rand, d.filters, d.caches, &d.parsed_queries());
         let mut set: BTreeSet<(String, String)> = BTreeSet::new();
@@ -1543,7 +1600,7 @@ fn main() {
                     }
                     // and the main query once more: what the first resolution left in the caches
                     qs.push((q.0.to_string(), q.1.to_string()));
-                    refs.push((CaseDesc { spec: s.clone(), limits: inj_limits, hostile: None, inj: vec![], queries: qs, case_rand: false, warm, mode: 0, filters: DEFAULT_FILTERS, caches: 0 }, hz));
+                    refs.push((CaseDesc { spec: s.clone(), limits: inj_limits, hostile: None, inj: vec![], queries: qs, case_rand: false, warm, mode: 0, filters: DEFAULT_FILTERS, caches: 0, ctor: 0 }, hz));
                 }
             }
         }
@@ -1669,6 +1726,7 @@ fn main() {
                                     mode: 0,
                                     filters: f,
                                     caches: 0,
+                                    ctor: 0,
                                 });
                             }
                         }
@@ -1688,6 +1746,90 @@ fn main() {
             }
             if i % 4001 == 0 {
                 l.sample(json!({"family": "filters", "case": d.to_json(), "outcome": run.steps[0].outcome.class()}));
+            }
+        });
+    }
+
+    // ---------------- (G) construction paths: every public way production code builds a Recursor,
+    // every knob at a non-default value, same-typed neighbours at DIFFERENT values
+    {
+        let knobs_limits = (6u8, 10u8);
+        let knob_filters = [1usize, 1, 1, 1]; // deny 6.6.7.0/24 + allow 6.6.7.1/32 (servers), deny 6.6.8.0/24 + allow 6.6.8.1/32 (answers)
+        let mut probes: Vec<CaseDesc> = vec![];
+        let mk = |spec: Spec, hostile: Option<usize>, inj: Vec<(usize, usize)>, q: (&str, &str), limits: (u8, u8)| CaseDesc {
+            spec,
+            limits,
+            hostile,
+            inj,
+            queries: vec![(q.0.to_string(), q.1.to_string()), (q.0.to_string(), q.1.to_string())],
+            case_rand: true,
+            warm: false,
+            mode: 0,
+            filters: knob_filters,
+            caches: 4,
+            ctor: 10,
+        };
+        for k in [5usize, 6] {
+            for sec in 0..SECTIONS.len() {
+                for q in [("www.l.t.", "A"), ("l.t.", "NS"), ("www.l.t.", "AAAA")] {
+                    probes.push(mk(Spec::base(), Some(LT), vec![(k, sec)], q, knobs_limits));
+                }
+            }
+        }
+        let world = |family: Family| {
+            let mut s = Spec::base();
+            s.family = family;
+            s
+        };
+        for nn in [5usize, 6, 7, 8] {
+            probes.push(mk(world(Family::NsChain { n: nn }), None, vec![], ("www.z1.t.", "A"), knobs_limits));
+        }
+        for nn in [1usize, 2, 3, 4] {
+            probes.push(mk(world(Family::CnameChain { n: nn, cross: false }), None, vec![], ("c0.l.t.", "A"), knobs_limits));
+        }
+        for nn in [4usize, 8, 12] {
+            probes.push(mk(world(Family::Deep { n: nn }), None, vec![], (&format!("{}l.t.", "x.".repeat(nn)), "A"), knobs_limits));
+        }
+        ctx.set("construction_path_probes", json!(probes.len()));
+        ctx.par_run(probes.len() as u64, 2, |i, l| {
+            let direct = &probes[i as usize];
+            // expectation side: the usual oracle (filters judged against the documented table for
+            // THESE lists, depth clause for THIS ns limit) on the directly built object
+            let base = run_and_judge(direct, None, l);
+            let (payloads, upper) = REQ_OBS.with(|o| o.borrow().clone());
+            let inet = direct.internet();
+            for ctor in [11u8, 12] {
+                let mut d = direct.clone();
+                d.ctor = ctor;
+                let run = run_and_judge(&d, None, l);
+                let (p2, u2) = REQ_OBS.with(|o| o.borrow().clone());
+                let path = if ctor == 11 { "Recursor::new" } else { "Recursor::from_config" };
+                if run.digest(&inet) != base.digest(&inet) {
+                    l.violation(
+                        &format!("construction-path-differs:{path}"),
+                        &format!("the recursor built through {path} behaves differently from the one built with Recursor::with_options for the same knob values"),
+                        || json!({"graph": d.to_json(), "with_options": base.to_json(), "this_path": run.to_json()}),
+                    );
+                }
+                for (what, pl, up) in [("with_options", &payloads, upper), (path, &p2, u2)] {
+                    if pl.iter().any(|x| *x != 1400) {
+                        l.violation(&format!("knob-not-effective:edns_payload_len:{what}"), &format!("requests advertise {pl:?}, configured 1400"), || d.to_json());
+                    }
+                    if !up && !pl.is_empty() {
+                        l.violation(&format!("knob-not-effective:case_randomization:{what}"), "no upstream request name carried an upper-case letter", || d.to_json());
+                    }
+                }
+                l.outcome("construction-path-probe");
+            }
+            // only the NS limit matters on a CNAME-free NS chain: the built object (6, 10) must
+            // behave there like (200, 10) - a swap of the two limits anywhere would not
+            if matches!(direct.spec.family, Family::NsChain { .. }) {
+                let mut r = direct.clone();
+                r.limits = (200, knobs_limits.1);
+                let other = run_and_judge(&r, None, l);
+                if other.digest(&inet) != base.digest(&inet) {
+                    l.violation("knob-not-effective:ns_recursion_limit-vs-recursion_limit", "on a CNAME-free NS chain the outcome depends on recursion_limit", || json!({"case": direct.to_json(), "limits_6_10": base.to_json(), "limits_200_10": other.to_json()}));
+                }
             }
         });
     }
@@ -1712,7 +1854,7 @@ fn main() {
     // graph (a cache that holds nothing must not turn bounded work into unbounded work)
     {
         let mut cjobs: Vec<CaseDesc> = vec![];
-        for caches in 1..CACHE_SIZES.len() {
+        for caches in 1..4 {
             for lim in [(4u8, 4u8), (8, 8), (32, 32), (24, 24), (255, 255)] {
                 for (_, v) in fams.iter() {
                     for (nn, spec, q) in v.iter() {
@@ -1728,12 +1870,12 @@ fn main() {
                             continue;
                         }
                         if [1usize, 2, 3, 9, 30].contains(nn) {
-                            cjobs.push(CaseDesc { spec: spec.clone(), limits: lim, hostile: None, inj: vec![], queries: vec![q.clone(), q.clone()], case_rand: false, warm: false, mode: 0, filters: DEFAULT_FILTERS, caches });
+                            cjobs.push(CaseDesc { spec: spec.clone(), limits: lim, hostile: None, inj: vec![], queries: vec![q.clone(), q.clone()], case_rand: false, warm: false, mode: 0, filters: DEFAULT_FILTERS, caches, ctor: 0 });
                         }
                     }
                 }
                 for q in queries.iter().filter(|_| lim != (32, 32)) {
-                    cjobs.push(CaseDesc { spec: Spec::base(), limits: lim, hostile: None, inj: vec![], queries: vec![(q.0.to_string(), q.1.to_string()), (q.0.to_string(), q.1.to_string())], case_rand: false, warm: false, mode: 0, filters: DEFAULT_FILTERS, caches });
+                    cjobs.push(CaseDesc { spec: Spec::base(), limits: lim, hostile: None, inj: vec![], queries: vec![(q.0.to_string(), q.1.to_string()), (q.0.to_string(), q.1.to_string())], case_rand: false, warm: false, mode: 0, filters: DEFAULT_FILTERS, caches, ctor: 0 });
                 }
             }
         }
@@ -1749,7 +1891,7 @@ fn main() {
     ctx.par_run(tjobs.len() as u64, 2, |i, l| {
         let (fi, vi, lim) = tjobs[i as usize];
         let (nn, spec, q) = &fams[fi].1[vi];
-        let d = CaseDesc { spec: spec.clone(), limits: lim, hostile: None, inj: vec![], queries: vec![q.clone()], case_rand: false, warm: false, mode: 0, filters: DEFAULT_FILTERS, caches: 0 };
+        let d = CaseDesc { spec: spec.clone(), limits: lim, hostile: None, inj: vec![], queries: vec![q.clone()], case_rand: false, warm: false, mode: 0, filters: DEFAULT_FILTERS, caches: 0, ctor: 0 };
         let run = run_and_judge(&d, None, l);
         l.outcome(&format!("termination:{}:{}", fams[fi].0.split(':').next().unwrap(), run.steps[0].outcome.class()));
         let probes: BTreeSet<&str> = run.steps[0].log.iter().filter(|e| e.qtype == "NS").map(|e| e.qname.as_str()).collect();
@@ -1834,7 +1976,7 @@ fn main() {
         ctx.set("stub_measured", Value::Object(stub));
     });
 
-    for class in ["cache-size-boundary-case", "second-step-query-for-a-touched-name", "warm-answer-subset-of-cold", "filter-configuration-case", "hostile-root-case", "mode:append+aa-flipped", "mode:reown-genuine-records-to-victim", "warm-cache-main-query", "hostile-server-contacted", "followup-equals-honest", "plateau-checked", "selftest:replayed-identically", "stub:error", "stub:answer", "main:answer", "main:nxdomain", "main:nodata"] {
+    for class in ["construction-path-probe", "cache-size-boundary-case", "second-step-query-for-a-touched-name", "warm-answer-subset-of-cold", "filter-configuration-case", "hostile-root-case", "mode:append+aa-flipped", "mode:reown-genuine-records-to-victim", "warm-cache-main-query", "hostile-server-contacted", "followup-equals-honest", "plateau-checked", "selftest:replayed-identically", "stub:error", "stub:answer", "main:answer", "main:nxdomain", "main:nodata"] {
         if ctx.outcome_count(class) == 0 {
             ctx.machinery_failure(&format!("vacuous run: outcome class '{class}' was never exercised"));
         }
